@@ -3,6 +3,7 @@
 
 #include <hgraph/lib/testing/record_replay.h>
 #include <hgraph/types/record_replay.h>
+#include <hgraph/runtime/global_state.h>
 
 #include <cxxabi.h>
 #include <thread>
@@ -412,7 +413,50 @@ std::string handle_batch(const JV &req) {
         if (!r->recorded.empty()) out += ",\"recorded\":" + r->recorded;
         out += "}";
     }
-    out += "]}";
+    out += "]";
+    // ---- foreign-context stage: the main thread holds a GlobalContext over a state of its own while ONE worker thread at
+    // a time wires, builds, runs and releases a program (optionally inside a GlobalContext of its own). Nothing of the
+    // host's state may show up in those runs and nothing of theirs in the host's state.
+    if (auto *fr = req.get("foreign")) {
+        GlobalState host;
+        host.view().set("hv.host.secret", Value{Int{42}});
+        std::string fo = "[";
+        {
+            GlobalContext gc(host);
+            bool first = true;
+            for (auto &e : fr->a) {
+                const std::size_t pi = (std::size_t)e.at("p").as_int();
+                const bool own = e.bool_or("own_ctx", false);
+                const JV &pj = req.at("progs").a.at(pi);
+                RunCtx c;
+                c.snap = pj.bool_or("snap", false);
+                c.node_events = pj.bool_or("node_events", true);
+                std::string err, rec, berr;
+                std::thread t([&] {
+                    try {
+                        std::optional<GlobalContext> mine;
+                        if (own) mine.emplace();
+                        Prepared q;
+                        prepare(q, pj);
+                        if (!q.error.empty()) { berr = q.error; return; }
+                        run_prepared(q, c, err, rec);
+                    } catch (const std::exception &ex) { err = err_json("foreign", ex); }
+                });
+                t.join();
+                if (!first) fo += ',';
+                first = false;
+                fo += "{\"p\":" + std::to_string(pi) + ",\"own_ctx\":" + (own ? "true" : "false") + ",\"trace\":";
+                emit_trace(fo, c);
+                fo += ",\"error\":" + (err.empty() ? std::string{"null"} : err) + ",\"build_error\":" + (berr.empty() ? std::string{"null"} : berr);
+                if (!rec.empty()) fo += ",\"recorded\":" + rec;
+                fo += "}";
+            }
+        }
+        fo += "]";
+        out += ",\"foreign_runs\":" + fo + ",\"host_size\":" + std::to_string(host.view().size()) +
+               ",\"host_secret\":" + (host.view().contains("hv.host.secret") ? "true" : "false");
+    }
+    out += "}";
     return out;
 }
 
